@@ -16,6 +16,9 @@ func SpecVarintLen(b []byte) int { return specVarintLen(b) }
 // SpecVarintVal: value of the n-byte varint at the start of b.
 func SpecVarintVal(b []byte, n int) uint64 { return specVarintVal(b, n) }
 
+// SpecTagLen: tag grammar at the start of b (length or error code).
+func SpecTagLen(b []byte) int { return specTagLen(b) }
+
 // SpecBytesLen: length-delimited payload grammar at the start of b.
 func SpecBytesLen(b []byte) int { return specBytesLen(b) }
 
